@@ -63,7 +63,13 @@ pub fn run(ctx: &Ctx) -> Outcome {
                 let api = ls.api(code);
                 let lex = ls.lexicon(code);
                 let info = spell::info(code);
-                let int_phrase = spell::cardinal(code, n);
+                // primary spelling, or (one time in three) another claimed variant
+                let int_phrase = if idx % 3 == 2 {
+                    let vs = spell::cardinal_variants(code, n);
+                    vs[rng.usize(vs.len())].text.clone()
+                } else {
+                    spell::cardinal(code, n)
+                };
                 if api.validate(&int_phrase).as_deref() != Ok(n.to_string().as_str()) {
                     rep.count("skipped_number_fails_C01");
                     rep.eval(hash_bytes(&[code.as_bytes(), int_phrase.as_bytes()]), false);
